@@ -155,6 +155,23 @@ theorem runRewrite_indep {I O : Type} {w : World I O} (hw : w.Ok) (strat : List 
         exact ((agreeAll_set hw σ r p hp i).symm.trans hag).trans (agreeAll_set hw σ' r p hp i)
       · rfl
 
+/-! opset interning -/
+
+theorem intern_fields (cache : List OpsetKey) (k : OpsetKey) : (intern cache k).2 = (k.domain, k.version) := by
+  unfold intern
+  split
+  · rename_i c hc
+    have := List.find?_some hc
+    simp only [beq_iff_eq] at this
+    rw [this]
+  · rfl
+
+theorem internAll_fields (cache : List OpsetKey) (ks : List OpsetKey) :
+    (internAll cache ks).2 = ks.map (fun k => (k.domain, k.version)) := by
+  induction ks generalizing cache with
+  | nil => rfl
+  | cons k ks ih => simp only [internAll, List.map_cons, intern_fields, ih]
+
 /-! pattern builder -/
 
 theorem runEvent_global (st : BState) (e : BEv) : (runEvent true st e).global = st.global := by
